@@ -15,6 +15,7 @@ import Liftbridge.Driver.GroupSubDrv
 import Liftbridge.Driver.ActivityDrv
 import Liftbridge.Driver.FailoverDrv
 import Liftbridge.Driver.MetadataDrv
+import Liftbridge.Driver.RecoverDrv
 
 namespace Liftbridge.Driver
 open Liftbridge
@@ -26,6 +27,7 @@ structure St where
   activity : ActivitySt := {}
   failover : FailoverSt := {}
   metadata : MetaSt := {}
+  recov : RecSt := {}
 
 def showRes {α} (f : α → String) : Res α → String
   | .ok a => "ok " ++ f a
@@ -62,6 +64,7 @@ def step (st : St) (line : String) : St × String :=
   | "c19" :: rest => (st, c19 rest)
   | "c15" :: rest => (st, c15Step rest)
   | "c17" :: rest => (st, c17 rest)
+  | "c05" :: rest => let (r, out) := recStep st.recov rest; ({ st with recov := r }, out)
   | "c06" :: rest => let (m, out) := metaStep st.metadata rest; ({ st with metadata := m }, out)
   | "c07" :: rest => let (f, out) := failoverStep st.failover rest; ({ st with failover := f }, out)
   | "c18" :: rest => let (a, out) := activityStep st.activity rest; ({ st with activity := a }, out)
